@@ -24,10 +24,64 @@ class Scenario:
         self.outcome = None
         self.members = []
 
+    def window(self, env):
+        """An execute that arrives while the runtime is going down: after the runner of its
+        flavour has stopped, before accept() has ended"""
+        from cobald.daemon.runners.service import ServiceRunner
+
+        params = self.params
+        flavour = params["flavour"]
+        runtime = ServiceRunner(accept_delay=1)
+        kit = self.kit = K.Kit(env, runtime)
+        kit.submit({"id": "m0", "flavour": flavour, "steps": [("forever-sections", 0.2)]})
+        if params["window"] == "failure":
+            # a payload of the flavour fails; the trio thread is busy, so closing takes a while
+            kit.submit({"id": "failing", "flavour": flavour,
+                        "steps": [("sleep", 1.0), ("raise", "LookupError")]})
+            other = "trio" if flavour == "asyncio" else "asyncio"
+            kit.submit({"id": "holder", "flavour": other,
+                        "steps": [("sleep", 0.95), ("block-thread", 1.0), ("forever", 0.5)]})
+            first_try = 1.05
+        else:
+            # shutdown(); an asyncio payload that needs several cancellations keeps it open
+            kit.submit({"id": "holder", "flavour": "asyncio", "steps": [("stubborn", 3, 0.3)]})
+            first_try = 1.55
+
+            def stopper():
+                runtime.running.wait()
+                env.sleep(1.0)
+                runtime.shutdown()
+
+            env.spawn(stopper, "driver")
+
+        def late_caller(index):
+            runtime.running.wait()
+            env.sleep(first_try)
+            desc = {"id": "m%d" % (index + 1), "flavour": flavour, "steps": [("section", 2)]}
+            for _attempt in range(4):
+                outcome = kit.submit(desc, "execute")
+                if outcome[0] == "returned":
+                    break
+                env.sleep(0.05)
+
+        for index in range(2):
+            env.spawn(late_caller, "late%d" % index, index)
+        try:
+            runtime.accept()
+        except Abort:
+            raise
+        except BaseException as err:  # noqa: B036
+            self.outcome = ("raised", err)
+        else:
+            self.outcome = ("returned", None)
+        env.log("run-ended", how=self.outcome[0])
+
     def main(self, env):
         from cobald.daemon.runners.service import ServiceRunner
 
         params = self.params
+        if params.get("window"):
+            return self.window(env)
         flavour = params["flavour"]
         other = "trio" if flavour == "asyncio" else "asyncio"
         runtime = ServiceRunner(accept_delay=1)
@@ -132,7 +186,10 @@ class Scenario:
             if who in coroutine_threads or who == "main" or loop is not None or token is not None:
                 violations.append(("%s:thread-payload-on-coroutine-thread" % flavour,
                                    "a thread payload ran in %r" % ((who, loop, token),)))
-        if self.outcome is None:
+        if self.params.get("window"):
+            if self.outcome is None:
+                violations.append(("%s:did-not-end" % flavour, "accept() did not end"))
+        elif self.outcome is None:
             violations.append(("%s:did-not-end" % flavour, "accept() did not end"))
         elif self.outcome[0] != "returned":
             violations.append(("%s:runtime-failed" % flavour,
@@ -156,6 +213,8 @@ def build(spec):
 
 def scenario_params(tier):
     out = []
+    for flavour in ("asyncio", "trio"):
+        out.append({"flavour": flavour, "window": "failure", "sources": []})
     for flavour in ("asyncio", "trio"):
         for size in ((2,) if tier == "quick" else (2, 3)):
             for index, sources in enumerate(itertools.combinations_with_replacement(SOURCES, size)):
